@@ -622,7 +622,18 @@ def run_case(spec):
             continue
         try:
             obs = digest(spec, df, res)
-        except Broken as e:
+        except (Broken, KeyError) as e:
+            if isinstance(e, KeyError):
+                # the recorder could not observe a working column of the simulated frame: still judge what the public output shows
+                po = res.get('po')
+                if po is not None and 'uid_g_zepid' in po.columns:
+                    uids = sorted(po['uid_g_zepid'].unique().tolist())
+                    if uids != list(range(spec['sample'])):
+                        fails.append((size_of(spec), 'MonteCarloGFormula.fit.invariant.exactly-sample',
+                                      'fit(%s): predicted_outcomes holds %d distinct simulated individuals, sample=%d'
+                                      % (describe(spec, lm), len(uids), spec['sample']), payload))
+                        continue
+                e = 'the per-step frame has no column %s (working column of the simulation the recorder reads)' % e
             fails.append((size_of(spec), 'MonteCarloGFormula.fit.draw-stream', 'fit(%s): %s' % (describe(spec, lm), e), payload))
             continue
         rows, err = po_rows(spec, res['po'])
